@@ -33,7 +33,7 @@ MANIFEST = dict(
           "on a civil day, +1 per day, Zeller-style Gregorian weekday after 1582-10-15; get_doy = day-number difference to "
           "1 January + 1 in both calendars, 365/366 (355 in 1582) on 31 December, doy2date inverts get_doy, year() = "
           "calendar year + elapsed fraction (floor = year, strictly increasing); mean sidereal time in [0,1) and its rate "
-          "inside a UT day; |mean_sidereal_time - IAU 1982 (Meeus 12.4)| <= 4.3e-8 day modulo whole turns for EVERY rational JDE in "
+          "inside a UT day (the 0h branch reduced too, the 0h shortcut is an absolute 1e-10 day); get_doy raises ValueError for day < 1, >= 32, month outside 1..12 and past the month end in both branches; the year divisor follows the calendar in force (1500: 366); |mean_sidereal_time - IAU 1982 (Meeus 12.4)| <= 4.3e-8 day modulo whole turns for EVERY rational JDE in "
           "[0, 5.4e6] (difference polynomial + monomial bounds). On the real-number instantiation of the same template text, with "
           "C08's nutation/obliquity model: apparent - mean = dpsi*3600*cos(eps)/15/86400 exactly; |apparent - mean| <= 1.345 s for "
           "|T| <= 40 centuries whatever obliquity is passed; < 1.2 s with the library's own true obliquity for years 0..2500 "
